@@ -121,6 +121,7 @@ func (e *Engine) verifyFunc(fn *ssa.Function) (u *Unit) {
 	// implicit precondition of every unit: the request holds no lock on entry (callers that hold one while
 	// calling are checked at their call sites: requires NoLocksHeld() / inlining)
 	u.heapSet(st, "GH:locks", "(Array Int Int)", "((as const (Array Int Int)) 0)")
+	u.heapSet(st, "GH:lockuses", "(Array Int Int)", "((as const (Array Int Int)) 0)")
 	u.emitAxioms(fr, st)
 	isInit := fn.Name() == "init" && fn.Synthetic != "" && fn.Pkg != nil
 	var establish []*GlobalInv
